@@ -38,4 +38,6 @@ def run(ctx):
     ctx.rule("R-WAKEUP-MIN", "the job pass keeps the earliest pending deadline as its next wake-up", floor=6)
     TM.wakeup_min(ctx, L.job, tag="22 ")
     TM.wakeup_min(ctx, ctx.prog.func("ElectronicControlUnit", "_async_job_thread"), tag="ECU ")
+    ctx.rule("R-MPG-STEPS", "an assembled multi-PG frame is sent on every path; received multi-PG frames are dispatched to the decoder", floor=2)
+    mpg.mpg_steps(ctx, L)
     return "multi-PG packing arithmetic, header layout, keying, padding and deadline handling decided on j1939_22.py"
